@@ -103,11 +103,22 @@ func (p *Peer) s1Take() {
 	p.onData(f)
 }
 
+// errS1Unacked: the whole block was put on the line (the connection under test consumed every
+// byte) but no ACK came back — it may well have accepted and dispatched the block.
+var errS1Unacked = errors.New("block written, not acknowledged")
+
 // s1Send transmits one block with the E4 handshake; as the slave it yields on contention.
 func (p *Peer) s1Send(w []byte) error {
+	wrote := false
+	fail := func(e error) error {
+		if wrote {
+			return errS1Unacked
+		}
+		return e
+	}
 	for try := 0; try < 8; try++ {
 		if !p.s1Raw(chENQ) {
-			return errors.New("line closed")
+			return fail(errors.New("line closed"))
 		}
 		granted, yielded := false, false
 		dl := time.Now().Add(s1Wait)
@@ -128,23 +139,24 @@ func (p *Peer) s1Send(w []byte) error {
 		if !granted {
 			select {
 			case <-p.closed:
-				return errors.New("peer closed")
+				return fail(errors.New("peer closed"))
 			default:
 			}
 			continue
 		}
 		if !p.s1Raw(w...) {
-			return errors.New("line closed")
+			return fail(errors.New("line closed"))
 		}
+		wrote = true
 		b, ok := p.s1ReadByte(s1Wait)
 		if ok && b == chACK {
 			return nil
 		}
 		if !ok {
-			return errors.New("no ACK")
+			return errS1Unacked
 		}
 	}
-	return errors.New("gave up")
+	return fail(errors.New("gave up"))
 }
 
 func (p *Peer) s1Loop() {
@@ -200,6 +212,12 @@ func (p *Peer) s1Write(f []byte) error {
 	case err := <-req.res:
 		return err
 	case <-p.EOF:
-		return errors.New("line closed")
+		// the line loop ended while it held the request: it may have written the block
+		select {
+		case err := <-req.res:
+			return err
+		default:
+		}
+		return errS1Unacked
 	}
 }
